@@ -149,7 +149,10 @@ RecoveryC(r, late) ==      \* late: leave the clauses the known finding explains
     LET S == [k \in 1..Len(r.status) |-> r.status[k][2]]
         n == Len(S)
         outage == {k \in 1..(Len(r.opens) - 1) : r.opens[k][2] = 0}       \* a failed attempt followed by another attempt
-        badgap == {k \in outage : r.opens[k + 1][1] - r.opens[k][1] # r.params.interval}
+        \* (a pause between two rounds of attempts -- the driver had given up and the application called connect() again at
+        \* call_at -- is not a gap between attempts of one round)
+        badgap == {k \in outage : r.opens[k + 1][1] - r.opens[k][1] # r.params.interval
+                                   /\ ~(r.params.call_at >= 0 /\ r.opens[k][1] < r.params.call_at /\ r.params.call_at <= r.opens[k + 1][1])}
         badpair == {k \in 1..Len(r.callers) : r.callers[k].exc = "none" /\ CallerPairing(r.driver, r.wire, r.callers[k]) # ""}
         serial == SerialDrv(r.driver)
         okexc == IF serial THEN {"none", "TimeoutError", "CancelledError"} ELSE AllowedSendExc
@@ -179,6 +182,10 @@ RecoveryC(r, late) ==      \* late: leave the clauses the known finding explains
        ELSE IF r.out.tail.exc # "none" THEN Fail("further-sends-failed:" \o r.out.tail.exc, r.out.tail.n)
        ELSE IF r.out.tail.wrong # 0 /\ ~(late /\ Orphan(r) # "") THEN Fail("further-sends-got-wrong-answers" \o Orphan(r), r.out.tail.wrong)
        ELSE IF badgap # {} THEN Fail("reconnect-attempts-not-at-configured-interval", CHOOSE k \in badgap : TRUE)
+       \* the application called connect() again after 'failed' and the device came back within the limit of that second
+       \* round: the driver is connected when the further sends begin
+       ELSE IF ~serial /\ r.params.call_at >= 0 /\ (n = 0 \/ S[n] # "connected")
+            THEN Fail("second-round-of-reconnect-attempts-did-not-reconnect", n)
        ELSE IF ~serial /\ r.params.expect_failed = 1 /\ (n = 0 \/ S[n] # "failed") THEN Fail("failed-not-reported-after-reconnect-limit", n)
        ELSE IF ~serial /\ r.params.expect_failed = 0 /\ \E k \in 1..n : S[k] = "failed" THEN Fail("failed-reported-without-reaching-limit", 0)
        ELSE IF ~serial /\ r.params.limit >= 0 /\ r.params.expect_failed = 1
